@@ -335,7 +335,10 @@ def call_builtin(ev, name, args, kwargs, node):
             return Lst(c) if name == "list" else Tup(c)
         if isinstance(args[0], Lst):
             return args[0]
-        return App(name, (as_v(ev, args[0]),))
+        a0 = as_v(ev, args[0])
+        if isinstance(a0, App) and a0.fn == name and len(a0.args) == 1:
+            return a0        # list(list(x)) has the elements of list(x)
+        return App(name, (a0,))
     if name == "dict":
         d = Dct()
         for k, v in kwargs.items():
@@ -516,6 +519,8 @@ def np_call(ev, name, args, kwargs, node):
     if name == "copy":
         v = as_v(ev, arg(0, "a"))
         return App("fresh", (v,)) if storage_root(v) is not None else v
+    if name in ("sort", "argsort") and kwargs.get("kind") == Const(None):
+        kwargs = {k: v for k, v in kwargs.items() if k != "kind"}     # kind=None is numpy's default
     if name == "sort":
         ax = kwargs.get("axis", arg(1) if len(A) > 1 else None)
         if isinstance(ax, Const) and ax.value is None:
@@ -649,6 +654,9 @@ def np_call(ev, name, args, kwargs, node):
                 ev.event("inplace", how="out=", root=root, target="out", node=node, value=kwargs["out"])
         r = {"add": add, "subtract": sub, "multiply": mul}[name](a, b)
         return ev.int_product(r, a, b, node) if name == "multiply" else r
+    if name == "count_nonzero" and A and is_boolish(as_v(ev, A[0])):
+        # the number of True entries of a boolean array is its sum
+        return np_call(ev, "sum", [A[0]] + list(A[1:]), dict(kwargs), node)
     if name == "logical_not" and len(A) == 1 and not kwargs:
         x0 = as_v(ev, A[0])
         if is_boolish(x0):
